@@ -204,7 +204,11 @@ def load_mod(pid: str) -> Any:
 
 def props_files(mod: Any) -> List[str]:
     """A property's theorem files: PROPS_FILE plus optional PROPS_EXTRA (e.g. files contributed by another proof effort)."""
-    return [mod.PROPS_FILE] + list(getattr(mod, "PROPS_EXTRA", []))
+    out: List[str] = []
+    for f in [mod.PROPS_FILE] + list(getattr(mod, "PROPS_EXTRA", [])):
+        if f not in out:
+            out.append(f)
+    return out
 
 
 def theorem_names(props_file: str) -> List[str]:
